@@ -451,6 +451,13 @@ def curated_special():
     out.append(('class-template-twice', [
         ('rule', 'start', None, ('seq', [('call', 'CP', [('str', 'a'), ('py', '1')]), ('call', 'CP', [T, ('py', "'two'")])])),
         template_stmt('CP')]))
+    # a let passed directly as an argument, its body being directly the use of the name
+    out.append(('arg-let-count', [
+        ('rule', 'start', None, ('call', 'W', [('let', 'n', D, ('rep', ('str', 'a'), ('name', 'n'), ('name', 'n')))])),
+        ('rule', 'W', ['p'], ('seq', [('ref', 'p'), ('opt', ('str', '!'))]))]))
+    out.append(('arg-let-read', [
+        ('rule', 'start', None, ('seq', [('call', 'W', [('let', 'v', T, ('py', "('seen', v)"))]), ('call', 'W', [('let', 'v', T, ('where', T, ('py', 'lambda w: w == v')))])])),
+        ('rule', 'W', ['p'], ('seq', [('ref', 'p'), ('opt', ('str', '!'))]))]))
     # a parameter spelled like an existing rule or class denotes the argument, not that rule
     out.append(('param-shadows-rule', [
         ('rule', 'start', None, ('seq', [('call', 'P', [('ref', 'Num')]), ('str', ','), ('call', 'P', [('str', 'x')]), ('opt', ('ref', 'Word'))])),
